@@ -31,28 +31,28 @@ import (
 
 // Job is one invocation of the generator.
 type Job struct {
-	ID       string `json:"id"`
-	Spec     []byte `json:"spec"`          // document handed to the loader
-	Raw      []byte `json:"raw,omitempty"` // bytes handed to Generate as specRaw (default: Spec)
-	RawSet   bool   `json:"rawSet,omitempty"` // Raw is meaningful even when empty
-	OutDir   string `json:"outDir"`
-	Package  string `json:"package,omitempty"`
-	Client   bool   `json:"client,omitempty"`
-	NoAPI    bool   `json:"noAPI,omitempty"`
-	DoNotEdit bool  `json:"doNotEdit,omitempty"`
-	Cors     bool   `json:"cors,omitempty"`
-	IgnoreCustom bool `json:"ignoreCustom,omitempty"`
-	BasePath string `json:"basePath,omitempty"` // --basepath flag
-	SpecName string `json:"specName,omitempty"` // spec handler name (default openapi.yaml)
+	ID           string `json:"id"`
+	Spec         []byte `json:"spec"`             // document handed to the loader
+	Raw          []byte `json:"raw,omitempty"`    // bytes handed to Generate as specRaw (default: Spec)
+	RawSet       bool   `json:"rawSet,omitempty"` // Raw is meaningful even when empty
+	OutDir       string `json:"outDir"`
+	Package      string `json:"package,omitempty"`
+	Client       bool   `json:"client,omitempty"`
+	NoAPI        bool   `json:"noAPI,omitempty"`
+	DoNotEdit    bool   `json:"doNotEdit,omitempty"`
+	Cors         bool   `json:"cors,omitempty"`
+	IgnoreCustom bool   `json:"ignoreCustom,omitempty"`
+	BasePath     string `json:"basePath,omitempty"` // --basepath flag
+	SpecName     string `json:"specName,omitempty"` // spec handler name (default openapi.yaml)
 
-	Static    bool `json:"static,omitempty"`    // run the static oracles
-	KeepFiles bool `json:"keepFiles,omitempty"` // return file contents in the result
-	Registry  bool `json:"registry,omitempty"`  // write zz_registry.go for the batch driver
-	Impl      bool `json:"impl,omitempty"`      // compute response-interface implementer sets (C02)
-	SpecConst bool `json:"specConst,omitempty"` // evaluate the SpecFile constant (C13)
-	Raws      [][]byte `json:"raws,omitempty"`  // spec-file-only mode: contents to embed (C13 thorough)
-	Steps     []Step            `json:"steps,omitempty"` // history mode (C19)
-	Init      map[string]string `json:"init,omitempty"`  // history mode: initial directory content
+	Static    bool              `json:"static,omitempty"`    // run the static oracles
+	KeepFiles bool              `json:"keepFiles,omitempty"` // return file contents in the result
+	Registry  bool              `json:"registry,omitempty"`  // write zz_registry.go for the batch driver
+	Impl      bool              `json:"impl,omitempty"`      // compute response-interface implementer sets (C02)
+	SpecConst bool              `json:"specConst,omitempty"` // evaluate the SpecFile constant (C13)
+	Raws      [][]byte          `json:"raws,omitempty"`      // spec-file-only mode: contents to embed (C13 thorough)
+	Steps     []Step            `json:"steps,omitempty"`     // history mode (C19)
+	Init      map[string]string `json:"init,omitempty"`      // history mode: initial directory content
 }
 
 const (
@@ -60,6 +60,7 @@ const (
 	GenError     = "generator-error"
 	GenPanic     = "generator-panic"
 	GenFatal     = "generator-fatal" // worker process died (stack overflow etc.)
+	GenHang      = "generator-hang"  // no answer within the job timeout
 	Success      = "success"
 )
 
@@ -77,12 +78,12 @@ type Result struct {
 	Unstable  []string `json:"unstable,omitempty"` // files for which gofmt(f) != f
 	TypeErr   []string `json:"typeErr,omitempty"`
 
-	Impl      map[string][]string `json:"impl,omitempty"`      // response interface -> implementers
-	Ctors     map[string]string   `json:"ctors,omitempty"`     // exported func New* -> result type name
-	SpecConst *string             `json:"specConst,omitempty"` // value of the SpecFile constant
-	SpecConstErr string           `json:"specConstErr,omitempty"`
-	SpecFiles []SpecFileResult    `json:"specFiles,omitempty"`
-	Hist      *HistResult         `json:"hist,omitempty"`
+	Impl         map[string][]string `json:"impl,omitempty"`      // response interface -> implementers
+	Ctors        map[string]string   `json:"ctors,omitempty"`     // exported func New* -> result type name
+	SpecConst    *string             `json:"specConst,omitempty"` // value of the SpecFile constant
+	SpecConstErr string              `json:"specConstErr,omitempty"`
+	SpecFiles    []SpecFileResult    `json:"specFiles,omitempty"`
+	Hist         *HistResult         `json:"hist,omitempty"`
 }
 
 func (r *Result) Healthy() bool {
